@@ -5,6 +5,8 @@ import (
 	"context"
 	"fmt"
 	"net"
+	"os"
+	"path/filepath"
 	"sync"
 	"sync/atomic"
 	"time"
@@ -2379,6 +2381,89 @@ func scenCompactAfterRemove(e *engineA) error {
 	x.shutdown(30 * time.Second)
 	e.parked[x.nid] = true
 	e.cl.startInfoSampler(e.hb() / 2)
+	e.startClients(2, map[string]int{"update": 3, "read": 1})
+	e.sleepHB(3, 6)
+	return e.finish()
+}
+
+func init() { scenarios["lifecycle"] = scenLifecycle }
+
+// scenLifecycle (C15): the calls around Serve. A node that was created but
+// never served is shut down (shutdown must finish); ListenAndServe is given an
+// address that is taken (it must return an error, as documented, not take the
+// process down); a served node is shut down twice, and tasks submitted after
+// that are refused.
+func scenLifecycle(e *engineA) error {
+	e.prof = profiles["general"]
+	if err := e.boot(3); err != nil {
+		return err
+	}
+	l := e.cl.leader()
+	if l == nil {
+		return fmt.Errorf("no leader")
+	}
+	for i := 0; i < 3; i++ {
+		e.cl.fsmOp(1, l, "update")
+	}
+	report := func(what, kind, detail string) {
+		e.rc.emit(&ev.Rec{K: "lifecycle", Op: what, Kind: kind, Note: detail, Cid: e.cl.cid})
+	}
+	// 1. New, then Shutdown, never served
+	dir := filepath.Join(e.cfg.Scratch, "unserved")
+	_ = os.MkdirAll(dir, 0700)
+	if err := raft.SetIdentity(dir, 9, 9); err != nil {
+		return err
+	}
+	if r, err := raft.New(e.cl.opt, newRecFSM(e.rc, dir), dir); err != nil {
+		report("new-unserved", "error", err.Error())
+	} else {
+		ctx, cancel := context.WithTimeout(context.Background(), 20*e.hb())
+		err := r.Shutdown(ctx)
+		cancel()
+		if err != nil {
+			report("shutdown-unserved", "hangs", err.Error())
+		} else {
+			report("shutdown-unserved", "ok", "")
+		}
+	}
+	// 2. ListenAndServe on an address that is taken
+	if lis, err := net.Listen("tcp", "127.0.0.1:0"); err == nil {
+		dir2 := filepath.Join(e.cfg.Scratch, "taken")
+		_ = os.MkdirAll(dir2, 0700)
+		_ = raft.SetIdentity(dir2, 9, 8)
+		if r, err := raft.New(e.cl.opt, newRecFSM(e.rc, dir2), dir2); err == nil {
+			func() {
+				defer func() {
+					if v := recover(); v != nil {
+						report("listen-and-serve-address-taken", "panics", fmt.Sprint(v))
+					}
+				}()
+				err := r.ListenAndServe(lis.Addr().String())
+				if err != nil {
+					report("listen-and-serve-address-taken", "ok", err.Error())
+				} else {
+					report("listen-and-serve-address-taken", "no-error", "")
+				}
+			}()
+			ctx, cancel := context.WithTimeout(context.Background(), 5*e.hb())
+			_ = r.Shutdown(ctx)
+			cancel()
+		}
+		lis.Close()
+	}
+	// 3. a served node shut down twice; tasks afterwards
+	f := e.others(l)[0]
+	f.shutdown(30 * time.Second)
+	ctx, cancel := context.WithTimeout(context.Background(), 20*e.hb())
+	if err := f.r.Shutdown(ctx); err != nil {
+		report("second-shutdown", "hangs", err.Error())
+	} else {
+		report("second-shutdown", "ok", "")
+	}
+	cancel()
+	if _, err := e.cl.start(f.nid, f.dir); err != nil {
+		e.rc.emit(&ev.Rec{K: "restart-failed", Cid: e.cl.cid, Nid: f.nid, Err: err.Error()})
+	}
 	e.startClients(2, map[string]int{"update": 3, "read": 1})
 	e.sleepHB(3, 6)
 	return e.finish()
